@@ -22,22 +22,23 @@ import (
 // fails or does not return is itself the violation.
 
 type c01case struct {
-	seed     uint64
-	cs       int
-	streams  int
-	conns    int
-	resume   bool
-	quicLike bool
-	realQUIC bool
-	rootDir  bool
-	leftover bool // the output directory already holds files of the same names with other content
-	twice    bool // fetch the same tree a second time into the same output (everything already there)
-	maxFiles int
+	seed      uint64
+	cs        int
+	streams   int
+	conns     int
+	resume    bool
+	quicLike  bool
+	realQUIC  bool
+	rootDir   bool
+	leftover  bool // the output directory already holds files of the same names with other content
+	wrongKind bool // ... and entries of the other kind: a file where a directory goes, a directory where a file goes (C01 only: such a transfer may fail, it may not succeed wrongly)
+	twice     bool // fetch the same tree a second time into the same output (everything already there)
+	maxFiles  int
 }
 
 func (c c01case) String() string {
-	return fmt.Sprintf("seed=%d cs=%d streams=%d conns=%d resume=%v quicLike=%v realQUIC=%v rootDir=%v twice=%v leftover=%v maxFiles=%d",
-		c.seed, c.cs, c.streams, c.conns, c.resume, c.quicLike, c.realQUIC, c.rootDir, c.twice, c.leftover, c.maxFiles)
+	return fmt.Sprintf("seed=%d cs=%d streams=%d conns=%d resume=%v quicLike=%v realQUIC=%v rootDir=%v twice=%v leftover=%v wrongKind=%v maxFiles=%d",
+		c.seed, c.cs, c.streams, c.conns, c.resume, c.quicLike, c.realQUIC, c.rootDir, c.twice, c.leftover, c.wrongKind, c.maxFiles)
 }
 
 type c01outcome struct {
@@ -91,6 +92,27 @@ func runC01case(base string, c c01case, timeout time.Duration, env *c08env) c01o
 			fp := filepath.Join(dst, filepath.FromSlash(f.rel))
 			os.MkdirAll(filepath.Dir(fp), 0755)
 			os.WriteFile(fp, junk, 0644)
+		}
+	}
+	if c.wrongKind {
+		dst := out
+		if c.rootDir {
+			dst = filepath.Join(out, "root")
+		}
+		wr := hx.NewRand(c.seed ^ 0x77a1)
+		for _, d := range tree.dirs {
+			if wr.Intn(2) == 0 {
+				fp := filepath.Join(dst, filepath.FromSlash(d))
+				os.MkdirAll(filepath.Dir(fp), 0755)
+				os.WriteFile(fp, []byte("a file, not a dir"), 0644)
+			}
+		}
+		for _, f := range tree.files {
+			if wr.Intn(6) == 0 {
+				fp := filepath.Join(dst, filepath.FromSlash(f.rel))
+				os.Remove(fp)
+				os.MkdirAll(fp, 0755)
+			}
 		}
 	}
 	rounds := 1
@@ -265,6 +287,9 @@ func runTransfers(cfg config, rep *hx.Report, prop string, n int, quicShare int)
 	}
 	hangs := 0
 	for i, c := range c01cases(rng, n, quicShare) {
+		if prop == "C01" && i%8 == 3 {
+			c.wrongKind = true
+		}
 		if hangs >= 4 || tooManyHangs(rep) {
 			rep.Count("skipped-after-hangs")
 			continue
@@ -288,6 +313,9 @@ func runTransfers(cfg config, rep *hx.Report, prop string, n int, quicShare int)
 		}
 		if c.leftover {
 			rep.Count("leftover-output-files")
+		}
+		if c.wrongKind {
+			rep.Count("leftover-entries-of-the-other-kind")
 		}
 		if c.rootDir {
 			rep.Count("root-dir-mode")
@@ -326,7 +354,7 @@ func runTransfers(cfg config, rep *hx.Report, prop string, n int, quicShare int)
 
 func runC01(cfg config) *hx.Report {
 	rep := hx.NewReport("C01")
-	rep.Rule = "generated trees (0-10 files, sizes around k*chunk +-1, empty files, empty dirs, nesting, odd names) x chunk sizes {1,3,16,4096} x 1-8 streams x 1-3 connections x resume on/off x (a second fetch over the finished tree, the source edited in between: shortened, grown, rewritten, whole chunks blanked) x (output directory already holding files of the same names with other content)  x root-directory mode x transport {in-memory with stream visibility at open, in-memory with QUIC-like visibility, real loopback QUIC}; real sender and receiver; non-trivial = at least 2 files or a multi-chunk file; distinct by (tree seed, configuration).  Plus honest stepped-receiver histories for the model correspondence"
+	rep.Rule = "generated trees (0-10 files, sizes around k*chunk +-1, empty files, empty dirs, nesting, odd names) x chunk sizes {1,3,16,4096} x 1-8 streams x 1-3 connections x resume on/off x (a second fetch over the finished tree, the source edited in between: shortened, grown, rewritten, whole chunks blanked) x (output directory already holding files of the same names with other content; for C01 also a file where an empty directory goes or a directory where a file goes - such a transfer may fail but not succeed wrongly)  x root-directory mode x transport {in-memory with stream visibility at open, in-memory with QUIC-like visibility, real loopback QUIC}; real sender and receiver; non-trivial = at least 2 files or a multi-chunk file; distinct by (tree seed, configuration).  Plus honest stepped-receiver histories for the model correspondence"
 	n, share := 400, 5
 	if cfg.tier == "thorough" {
 		n, share = 2500, 4
